@@ -641,6 +641,27 @@ def verdict_mphys(desc):
         # a node's three coordinates sit at 3*node .. 3*node+2 of the flattened vector
         out.true("mphys/node_vs_src", np.array_equal(src[s["name"]][:, :, 0], 3 * nodes[s["name"]]), "node/src mismatch")
 
+    # the mesh multiplexer: concatenation of the surface meshes in list order, whatever dtype each user array has
+    from openaerostruct.mphys.aero_mesh import AeroMesh
+
+    dts = [np.float64, np.float32, np.int64]
+    surfs_m = _surfaces(descs, meshes)
+    k0 = int(desc["seed"]) % n
+    dt = dts[(int(desc["seed"]) // 7) % 3] if n > 1 else np.float64
+    if dt is np.int64:
+        surfs_m[k0]["mesh"] = np.round(meshes[k0] * 4.0).astype(np.int64)  # a hand-typed integer grid
+    else:
+        surfs_m[k0]["mesh"] = meshes[k0].astype(dt)
+    if dt is not np.float64:
+        out.label("user_mesh_dtype=" + np.dtype(dt).name)
+    pam = om.Problem(reports=False)
+    pam.model.add_subsystem("mesh", AeroMesh(surfaces=surfs_m), promotes=["*"])
+    pam.setup()
+    pam.run_model()
+    out.close("mphys/aero_mesh_coordinates", pam.get_val(MV.Aerodynamics.Surface.Mesh.COORDINATES),
+              np.concatenate([np.asarray(sm["mesh"], float).ravel() for sm in surfs_m]), rtol=0.0, atol=0.0)
+    pam.cleanup()
+
     prob = om.Problem(reports=False)
     ivc = om.IndepVarComp()
     ivc.add_output(X, val=x, units="m")
@@ -817,10 +838,78 @@ def verdict_mphys(desc):
     return out
 
 
+# ---------------------------------------------------------------------------------------------------------------------
+# the MPhys builder: the groups it hands out depend on ITS options and the documented defaults only
+
+
+BUILDER_DEFAULTS = {"user_specified_Sref": False, "compressible": True, "output_dir": "./", "write_solution": True}
+
+
+@st.composite
+def builder_config(draw):
+    surfs, _ = draw(surface_list(min_surf=1, max_surf=3, max_panels=24))
+    opt = st.fixed_dictionaries({}, optional=dict(user_specified_Sref=st.booleans(), compressible=st.booleans(),
+                                                  output_dir=st.sampled_from(["./", "out", "./sol"]), write_solution=st.booleans()))
+    return dict(surfaces=surfs, alpha=draw(S.fl(-5.0, 10.0, 3.0)),
+                builders=draw(st.lists(st.one_of(st.none(), opt), min_size=2, max_size=4)),
+                tags=draw(st.lists(st.integers(0, 3), min_size=0, max_size=3)))
+
+
+class _Comm:
+    rank = 0
+    size = 1
+
+
+def verdict_builder(desc):
+    from openaerostruct.mphys import AeroBuilder
+    from openaerostruct.mphys.aero_mesh import AeroMesh
+    from openaerostruct.mphys.utils import get_node_indices
+
+    out = Outcome()
+    descs = desc["surfaces"]
+    meshes = place_surfaces(descs, desc["alpha"])
+    n = len(meshes)
+    nnodes = sum(m.shape[0] * m.shape[1] for m in meshes)
+    made = []
+    for opts in desc["builders"]:
+        surfs = _surfaces(descs, meshes)
+        b = AeroBuilder(surfs, options=None if opts is None else dict(opts))
+        b.initialize(_Comm())
+        made.append((b, dict(BUILDER_DEFAULTS, **(opts or {})), surfs))
+    # every builder - also those created BEFORE later ones - reflects its own options and the documented defaults
+    for i, (b, exp, surfs) in enumerate(made):
+        cg = b.get_coupling_group_subsystem("cruise")
+        fg = b.get_post_coupling_subsystem("cruise")
+        mg_ = b.get_mesh_coordinate_subsystem("cruise")
+        out.true("builder/compressible", bool(cg.options["compressible"]) == exp["compressible"],
+                 "builder %d: coupling group compressible=%r, expected %r" % (i, cg.options["compressible"], exp["compressible"]))
+        out.true("builder/user_specified_Sref", bool(fg.options["user_specified_Sref"]) == exp["user_specified_Sref"],
+                 "builder %d: functions group user_specified_Sref=%r, expected %r" % (i, fg.options["user_specified_Sref"], exp["user_specified_Sref"]))
+        out.true("builder/write_solution", bool(fg.options["write_solution"]) == exp["write_solution"], "builder %d write_solution" % i)
+        out.true("builder/output_dir", fg.options["output_dir"] == exp["output_dir"], "builder %d output_dir %r" % (i, fg.options["output_dir"]))
+        out.true("builder/surfaces_handed_on", cg.options["surfaces"] is surfs and fg.options["surfaces"] is surfs
+                 and isinstance(mg_, AeroMesh) and mg_.options["surfaces"] is surfs, "builder %d hands out other surfaces" % i)
+        out.true("builder/ndof", b.get_ndof() == 3, "ndof")
+        out.true("builder/number_of_nodes", b.get_number_of_nodes() == nnodes, "%r vs %d" % (b.get_number_of_nodes(), nnodes))
+        names = ["s%d" % (t % n) for t in desc["tags"]]
+        idx = get_node_indices(surfs)
+        exp_idx = [int(v) for nm in names for v in idx[nm].flatten()]
+        out.true("builder/tagged_indices", list(b.get_tagged_indices(names)) == exp_idx, "tags %s" % names)
+        out.true("builder/all_indices", list(b.get_tagged_indices([-1])) == list(range(nnodes)), "tag -1")
+    out.true("builder/class_defaults_untouched", dict(AeroBuilder.def_options) == BUILDER_DEFAULTS,
+             "class-level defaults are now %r" % (AeroBuilder.def_options,))
+    out.label("builders=%d" % len(made), "nsurf=%d" % n)
+    if any(o for o in desc["builders"]):
+        out.label("non_default_options")
+    out.nontrivial = bool(any(o for o in desc["builders"][:-1]))
+    return out
+
+
 SUBS = [
     Sub("permutation", perm_config(), verdict_perm, quick=200, thorough=5000),
     Sub("split_surfaces", split_config(), verdict_split, quick=160, thorough=4000),
     Sub("split_sections", section_config(), verdict_sections, quick=120, thorough=3000),
     Sub("far_surface", far_config(), verdict_far, quick=96, thorough=2000),
     Sub("mphys_chain", mphys_config(), verdict_mphys, quick=160, thorough=4000),
+    Sub("mphys_builder", builder_config(), verdict_builder, quick=160, thorough=4000),
 ]
